@@ -158,6 +158,28 @@ func runCell(id string, c cell) runner.Result {
 			}
 		}
 	}
+	// 2b. the call during which a transport write failed reports an error
+	if fired && c.kind.IsWrite() {
+		side := byte('c')
+		if c.server {
+			side = 's'
+		}
+		for _, w := range end.Writes() {
+			if w.Err == nil || w.End == 0 {
+				continue
+			}
+			for _, l := range x.Logs() {
+				for _, e := range l.Snapshot() {
+					if e.Side != side || !e.Returned || e.Call > w.Begin || e.Ret < w.End {
+						continue
+					}
+					if (e.Op == "send" || e.Op == "invoke" || e.Op == "flush") && e.Err == nil {
+						failf("rpc %d %c:%s returned nil although the transport write issued inside it (write #%d, %d bytes) failed with %v", l.Script.Tag, side, e.Op, w.Idx, len(w.Data), w.Err)
+					}
+				}
+			}
+		}
+	}
 	if fired && len(fails) == 0 {
 		// 3. the connection reports closed and every later call fails
 		if !rig.IsClosed(x.Rig.Conn.Closed()) {
@@ -431,10 +453,99 @@ func finishRace(id string, seed uint64) runner.Result {
 	return res
 }
 
+// closeDuringDecode: a receiver is inside the decode of a delivered message (the buffer is lent out),
+// the next message is already waiting behind it, and the connection is closed locally at that moment.
+func closeDuringDecode(id string, seed uint64) runner.Result {
+	base := census.IDs(census.Snapshot())
+	r := &payload.SplitMix{S: seed}
+	cfg := prog.GenConfig(r, false)
+	cfg.Net.Cap = -1
+	server := r.Intn(2) == 0
+	var s *prog.Script
+	if server {
+		s = &prog.Script{Tag: 1, Client: []prog.Act{{Op: 's', Size: 20}, {Op: 's', Size: 30}, {Op: 's', Size: 40}, {Op: 'R'}}, Handler: []prog.Act{{Op: 'r'}, {Op: 'r'}, {Op: 'R'}}}
+	} else {
+		s = &prog.Script{Tag: 1, Client: []prog.Act{{Op: 's', Size: 20}, {Op: 'r'}, {Op: 'r'}, {Op: 'R'}}, Handler: []prog.Act{{Op: 'r'}, {Op: 's', Size: 30}, {Op: 's', Size: 40}, {Op: 's', Size: 50}, {Op: 'R'}}}
+	}
+	x := prog.New(cfg, []*prog.Script{s})
+	end := x.Rig.Pair.A
+	if server {
+		end = x.Rig.Pair.B
+	}
+	park := x.Rig.Dir.ParkAt("stream.msgrecv.held", end, 1)
+	x.Start([][]*prog.Script{{s}})
+	st, _ := census.QuiesceOr(park.Reached(), rig.Watchdog)
+	reached := st == "ready"
+	census.Quiesce(rig.Watchdog) // the reader has the next message in hand and waits for the buffer
+	var closer *rig.Op
+	how := "Conn.Close"
+	if server {
+		how = "the server's context is cancelled"
+		x.Rig.StopServe()
+	} else {
+		closer = rig.Go("conn.Close", func() (interface{}, error) { return nil, x.Rig.Conn.Close() })
+	}
+	census.Quiesce(rig.Watchdog)
+	park.Release()
+	_, snap := census.Quiesce(rig.Watchdog)
+	desc := fmt.Sprintf("%s | %s while a receiver on that side is inside the decode of a message (reached=%v) and the next message waits behind it", cfg.Desc, how, reached)
+	var fails []string
+	for _, l := range x.Logs() {
+		for _, e := range l.Snapshot() {
+			if !e.Returned {
+				fails = append(fails, fmt.Sprintf("rpc %d %c:%s is still blocked at quiescence after the connection was closed", l.Script.Tag, e.Side, e.Op))
+			}
+		}
+		if ran, done := l.HandlerState(); ran && !done {
+			fails = append(fails, "the handler has not returned at quiescence")
+		}
+	}
+	if closer != nil && !closer.Returned() {
+		fails = append(fails, "Conn.Close has not returned")
+	}
+	if server && !x.Rig.ServeOp.Returned() {
+		fails = append(fails, "ServeOne has not returned after its context was cancelled")
+	}
+	if len(fails) > 0 {
+		fails = append(fails, census.Dump(census.InDRPC(snap)))
+	} else if l := x.Log(1); !server && l.Stream != nil {
+		stm := l.Stream
+		op := rig.Go("later-recv", func() (interface{}, error) { var m []byte; return nil, stm.MsgRecv(&m, payload.Enc{}) })
+		if !op.Wait() {
+			fails = append(fails, "a receive on the stream after the close blocks")
+		} else if op.Err == nil {
+			fails = append(fails, "a receive on the stream after the close succeeded")
+		}
+	}
+	x.Rig.StopServe()
+	cl := rig.Go("conn.Close#2", func() (interface{}, error) { return nil, x.Rig.Conn.Close() })
+	if len(fails) == 0 && !cl.Wait() {
+		fails = append(fails, "a second Conn.Close does not return")
+	}
+	x.Rig.Pair.A.Close()
+	x.Rig.Pair.B.Close()
+	_, snap = census.Quiesce(rig.Watchdog)
+	if left := census.NewSince(census.InDRPC(snap), base); len(left) > 0 && len(fails) == 0 {
+		fails = append(fails, "library goroutines left behind:\n"+census.Dump(left))
+	}
+	x.Rig.Teardown()
+	if len(fails) > 0 {
+		return runner.Violation(id, "fault:close-during-decode:"+keyOf(fails[0]), desc+"\n"+strings.Join(fails, "\n"))
+	}
+	res := runner.Hold(id, desc, reached)
+	res.Events = 1
+	return res
+}
+
 func gen(tier string, seed uint64) []runner.Scenario {
 	var out []runner.Scenario
 	nraw := 300
 	nrace := 60
+	for i := 0; i < 40; i++ {
+		i := i
+		id := fmt.Sprintf("close-during-decode/%d", i)
+		out = append(out, runner.Scenario{ID: id, Run: func() runner.Result { return closeDuringDecode(id, payload.Hash(seed, 0xC05C, uint64(i))) }})
+	}
 	if tier == "thorough" {
 		nrace = 3000
 	}
@@ -514,7 +625,7 @@ func main() {
 	runner.Main(runner.Check{
 		Property: "C05",
 		Level:    "fault_enumeration",
-		Rule:     "fault points: for each of 15 deterministic workloads (unary small / multi-frame / with metadata / failing handler, client-, server-, bidirectional streams, failing bidi, two RPCs on one connection, early client close, flush-per-frame and 6 KB unary over a rendezvous transport) a fault-free run yields the byte streams and frame edges; one case = (workload, faulted endpoint, fault kind in {write error, partial write, read error, data+error, peer EOF, peer reset, local close}, byte offset, read chunking). quick: every frame edge, edge-1, edge+1, offset 0 and 8 seeded interior offsets per direction with one seeded chunking; thorough: every byte offset x all three chunkings. Plus raw-server cases: a raw peer writes a seeded prefix (whole, frame edge, any byte) of a valid client session that may contain RPCs abandoned before their invoke (metadata and/or cancel only), then the transport ends (read error, EOF, reset, peer close); ServeOne must return without anybody telling it. Plus finish-race cases: the contexts of the first RPCs are cancelled exactly while their streams are being marked finished (parked at the hook), then a last RPC has receives pending on both sides when the transport is reset or closed. Non-trivial: the fault actually fired. Distinct: by case tuple.",
+		Rule:     "fault points: for each of 15 deterministic workloads (unary small / multi-frame / with metadata / failing handler, client-, server-, bidirectional streams, failing bidi, two RPCs on one connection, early client close, flush-per-frame and 6 KB unary over a rendezvous transport) a fault-free run yields the byte streams and frame edges; one case = (workload, faulted endpoint, fault kind in {write error, partial write, read error, data+error, peer EOF, peer reset, local close}, byte offset, read chunking). quick: every frame edge, edge-1, edge+1, offset 0 and 8 seeded interior offsets per direction with one seeded chunking; thorough: every byte offset x all three chunkings. Plus raw-server cases: a raw peer writes a seeded prefix (whole, frame edge, any byte) of a valid client session that may contain RPCs abandoned before their invoke (metadata and/or cancel only), then the transport ends (read error, EOF, reset, peer close); ServeOne must return without anybody telling it. Plus finish-race cases: the contexts of the first RPCs are cancelled exactly while their streams are being marked finished (parked at the hook), then a last RPC has receives pending on both sides when the transport is reset or closed. Plus close-during-decode cases: the connection is closed locally while a receiver is inside the decode of a message and the next message waits behind it. Non-trivial: the fault actually fired. Distinct: by case tuple.",
 		Assumptions: []string{
 			"fault model is fail-stop: after the fault the endpoint's reads and writes both fail and the peer sees EOF or a reset after the surviving bytes; a transport whose writes fail while its reads stay healthy forever is not modelled (by design write errors are returned to the caller and the read error terminates the manager)",
 			"'every later call fails' is checked by issuing a send and a receive on each old stream, an Invoke and a NewStream after the process came to rest",
